@@ -2352,7 +2352,7 @@ class StepTr(Tr):
                         canon_type(strip_type(qt(unwrap(init_u["inner"][1])))) in VECTOR_T:
                     vt = {"Array (Array α)": "Array α", "Array Int": "Int"}[VECTOR_T[canon_type(strip_type(qt(unwrap(init_u["inner"][1]))))]]
                 if (vt == "Array α" or lean_type_of(dqt(d)) in ("Array α", "Array (Cx α)")) and "const" in qt(d) and \
-                        (self.frames or self.in_loop or vt is not None):
+                        (self.frames or self.in_loop or vt is not None) and (vt is not None or not getattr(self, "block_arrays", False)):
                     # a const array (reference) local: an alias of a value the function does not change
                     lt = vt or lean_type_of(dqt(d))
                     v = self.var(d["name"])
@@ -5716,11 +5716,11 @@ FFTFILTER_TABLE = {"_x": "arr_cmplx", "_h": "arr_cmplx", "_olap": "arr_cmplx", "
 
 FFTFILTER_PINS = {
     # template<class T2, class R = ResultType<T, T2>> base_array<R> operator*(const base_array<T2>& rhs) const { auto temp = array_cast<R>(*this); temp *= rhs; return temp; }
-    "operator*(array)": ['0000000000000000'],
+    "operator*(array)": ['9bd6757c6cb6ffcd'],
     # … base_array<R>& operator*=(const base_array<T2>& rhs) { DSPLIB_ASSERT(this->size() == rhs.size(), …); for (i < _vec.size()) _vec[i] *= rhs[i]; return *this; }
-    "operator*=(array)": ['0000000000000000'],
+    "operator*=(array)": ['89d34b21b9956014'],
     # arr_cmplx complex(const arr_real& re) noexcept { return array_cast<cmplx_t>(re); }     (lib/math.cpp; array_cast is pinned in unit StepsArray)
-    "complex(arr_real)": ['0000000000000000'],
+    "complex(arr_real)": ['3033fdb193418436'],
 }
 
 
